@@ -132,6 +132,28 @@ Example every_error_hyps_met_plain :
   (e_kind e <> KPlain -> In (e_code e) gen_error_codes) /\ (e_kind e = KPlain -> prefix reset_prefix (e_msg e) = false).
 Proof. split; [intros H; exfalso; apply H; reflexivity|intros _; vm_compute; reflexivity]. Qed.
 
+(* Which REQUESTS could reach the silent branch?  Every untyped error constructed under controller/ and
+   utils/unmarshal/ (list regenerated from the source: fmt.Errorf / errors.New not directly wrapped in a typed
+   error) begins with literal text chosen by the repository that parts ways with every literal ErrorHandler
+   prefix-matches, and ErrorHandler has no substring (Contains) test: so whatever client-controlled text follows
+   the head (%w of a strconv error quoting `from`, %s of a label string, %v of a panic value ...) the answer is 500.
+   Changing HasPrefix into Contains, or adding an error whose text starts with a verb, falsifies this. *)
+Theorem untyped_error_texts_cannot_be_silenced : sites_safe gen_error_handler gen_untyped_error_sites = true.
+Proof. vm_compute. reflexivity. Qed.
+Print Assumptions untyped_error_texts_cannot_be_silenced.
+
+Theorem untyped_errors_are_answered : forall st, In st gen_untyped_error_sites ->
+  forall client_text, status_of_error (e_plain (site_head st ++ client_text)) = Some 500%Z.
+Proof. apply sites_safe_sound. vm_compute. reflexivity. Qed.
+Print Assumptions untyped_errors_are_answered.
+
+(* the three client-text errors of the modelled routes, for every client string (from, until, label string) *)
+Theorem client_text_errors_are_answered : forall s,
+  status_of_error (e_from s) = Some 500%Z /\ status_of_error (e_until s) = Some 500%Z /\
+  status_of_error (e_labels s) = Some 500%Z.
+Proof. exact client_text_errors_answered. Qed.
+Print Assumptions client_text_errors_are_answered.
+
 (* ---- size limit -------------------------------------------------------------------------- *)
 
 (* withUnsnappyRequest still refuses to decode blocks that declare more than 10 MiB *)
